@@ -147,7 +147,7 @@ func ruleBatchTimer(c *Ctx, r *R) {
 	for _, h := range cellHelpers(timerCCell.cell) {
 		helperOfCell[h] = true // methods of a local timer-struct variable
 	}
-	pf := &PF{N: 5, InScope: func(f *ssa.Function) bool { return (rootFn(f) == root && f != root) || helperOfCell[f] }}
+	pf := &PF{N: 16, InScope: func(f *ssa.Function) bool { return (rootFn(f) == root && f != root) || helperOfCell[f] }}
 	pf.Instr = func(fn *ssa.Function, in ssa.Instruction, q int) (StateSet, bool) {
 		if q == ERR {
 			return ss(ERR), true
@@ -181,6 +181,17 @@ func ruleBatchTimer(c *Ctx, r *R) {
 			if sc, _ := batchSendCall(x); sc != nil && q&1 != 0 {
 				return ss(ERR), true
 			}
+			// bit 8 = the timer has been armed (NewTimer / Reset) and not stopped since
+			if cal := x.Call.StaticCallee(); cal != nil && cal.Pkg != nil && cal.Pkg.Pkg.Path() == "time" {
+				switch {
+				case fname(cal) == "NewTimer":
+					return ss(q | 8), true
+				case fname(cal) == "Reset" && cal.Signature.Recv() != nil && isNamedType(cal.Signature.Recv().Type(), "time", "Timer"):
+					return ss(q | 8), true
+				case fname(cal) == "Stop" && cal.Signature.Recv() != nil && isNamedType(cal.Signature.Recv().Type(), "time", "Timer"):
+					return ss(q &^ 8), true
+				}
+			}
 		}
 		return 0, false
 	}
@@ -203,6 +214,7 @@ func ruleBatchTimer(c *Ctx, r *R) {
 						if q&2 == 0 {
 							return 0, true // a nil channel is never ready
 						}
+						return ss(q &^ 8), true // the timer has fired: it is not armed any more
 					}
 				}
 			}
@@ -236,7 +248,23 @@ func ruleBatchTimer(c *Ctx, r *R) {
 	// report: first call/instruction in the batcher after which ERR becomes reachable
 	var firstBad ssa.Instruction
 	nFlushSites := 0
+	armedUnwatched := false
+	var unwatchedAt token.Pos
+	nWaits := 0
 	pf.Visit = func(fn *ssa.Function, in ssa.Instruction, before StateSet) {
+		if sel, ok := in.(*ssa.Select); ok && sel.Blocking {
+			for _, st := range sel.States {
+				if st.Dir == types.RecvOnly && loadVar(st.Chan) == timerCCell {
+					nWaits++
+					before.each(func(q int) {
+						if q != ERR && q&8 != 0 && q&2 == 0 {
+							armedUnwatched = true
+							unwatchedAt = sel.Pos()
+						}
+					})
+				}
+			}
+		}
 		if call, ok := in.(*ssa.Call); ok {
 			if cal := staticCallee(&call.Call); cal != nil && pf.InScope(cal) {
 				sendsBatch := false
@@ -269,6 +297,9 @@ func ruleBatchTimer(c *Ctx, r *R) {
 		if e.States.has(ERR) {
 			errReach = true
 		}
+	}
+	if nWaits > 0 {
+		r.ok(!armedUnwatched, "stream.BatchFunc|armed-timer-watched", unwatchedAt, "the batcher can wait in its select with the timer armed (NewTimer / Reset) while the timer-channel variable of the select is nil: the expiry is never seen, an underfilled batch is held back from a waiting consumer until the batch fills or the source ends")
 	}
 	r.ok(!errReach && len(pf.Undecided) == 0, "stream.BatchFunc|no-empty-send", batcher.Pos(), "a send of an empty batch on batchC is reachable in the abstract execution of the batcher loop "+strings.Join(pf.Undecided, ";"))
 	// Batch's predicate
